@@ -592,3 +592,72 @@ fcontract('Prefixed', '_sizeof', [
          ensures=lambda pre, post: [('size-is-prefix-plus-payload', size_is(post, t.add(Sub(pre, 'lengthfield', kind='sizeof').val, Sub(pre, 'subcon', kind='sizeof').val)), ('C05',))], rkind=rk_dyn),
     Case('no-size', 'raise', lambda pre: t.not_(_pf_sizeof_ok(pre))),
 ], tags=('C05',))
+
+
+# ------------------------------------------------------------------------------------------------ RawCopy._build (C14)
+from .composites import hsel as _hsel, dsel as _dsel  # noqa
+
+
+def _rcb_addr(pre):
+    return t.app('ref', t.INT, pre['obj'].t)
+
+
+def _rcb_isdict(pre):
+    v = pre['obj'].t
+    return t.and_(t.app('(_ is VRef)', t.BOOL, v), t.le(t.ZERO, _rcb_addr(pre)), t.lt(_rcb_addr(pre), pre.st.ghost['alloc']))
+
+
+def _rcb_value_sub(pre):
+    H0, D0 = pre.st.ghost['H'], pre.st.ghost['D']
+    return Sub(pre, 'subcon', obj=_hsel(H0, _rcb_addr(pre), 'value'), kind='build')
+
+
+def _rcb_from_value(pre):
+    D0 = pre.st.ghost['D']
+    a = _rcb_addr(pre)
+    return t.and_(_rcb_isdict(pre), t.not_(_dsel(D0, a, 'data')), _dsel(D0, a, 'value'), _rcb_value_sub(pre).ok)
+
+
+def _rcb_value_ok(pre, post):
+    o, o2 = S_(pre), post.obj('stream')
+    s = _rcb_value_sub(pre)
+    given = _hsel(pre.st.ghost['H'], _rcb_addr(pre), 'value')
+    data = _rc_field(post, 'data')
+    return [('stream-stands-right-after-the-bytes-the-inner-build-wrote', t.eq(o2.pos, t.add(o.pos, s.len)), ('C14', 'C09')),
+            _written(o, o2, s.len, lambda i: t.select(s.bytes, i), 'writes-exactly-the-inner-bytes'),
+            ('offsets-are-the-positions-before-and-after-the-inner-build', t.and_(t.eq(_rc_field(post, 'offset1'), t.app('VInt', t.VAL, o.pos)),
+                                                                               t.eq(_rc_field(post, 'offset2'), t.app('VInt', t.VAL, t.add(o.pos, s.len))),
+                                                                               t.eq(_rc_field(post, 'length'), t.app('VInt', t.VAL, s.len))), ('C14', 'C08')),
+            ('data-is-exactly-the-bytes-between-the-offsets', t.and_(t.app('(_ is VBytes)', t.BOOL, data), t.eq(t.app('barr', t.ARR, data), o2.buf),
+                                                                    t.eq(t.app('boff', t.INT, data), o.pos), t.eq(t.app('blen', t.INT, data), s.len)), ('C14',)),
+            ('value-is-what-the-inner-build-returned-or-the-given-value', t.eq(_rc_field(post, 'value'), t.ite(t.app('(_ is VNone)', t.BOOL, s.ret), given, s.ret)), ('C14',))]
+
+
+def _rcb_data(pre):
+    return _hsel(pre.st.ghost['H'], _rcb_addr(pre), 'data')
+
+
+def _rcb_from_data(pre):
+    D0 = pre.st.ghost['D']
+    d = _rcb_data(pre)
+    return t.and_(_rcb_isdict(pre), _dsel(D0, _rcb_addr(pre), 'data'), t.app('(_ is VBytes)', t.BOOL, d))
+
+
+def _rcb_data_ok(pre, post):
+    o, o2 = S_(pre), post.obj('stream')
+    d = _rcb_data(pre)
+    n = t.app('blen', t.INT, d)
+    return [('stream-advances-by-the-given-bytes', t.eq(o2.pos, t.add(o.pos, n)), ('C14', 'C09')),
+            _written(o, o2, n, lambda i: t.select(t.app('barr', t.ARR, d), t.add(t.app('boff', t.INT, d), i)), 'writes-exactly-the-given-bytes'),
+            ('offsets-are-the-positions-before-and-after', t.and_(t.eq(_rc_field(post, 'offset1'), t.app('VInt', t.VAL, o.pos)),
+                                                                t.eq(_rc_field(post, 'offset2'), t.app('VInt', t.VAL, t.add(o.pos, n))),
+                                                                t.eq(_rc_field(post, 'length'), t.app('VInt', t.VAL, n))), ('C14', 'C08')),
+            ('data-is-the-given-bytes', t.eq(_rc_field(post, 'data'), d), ('C14',))]
+
+
+fcontract('RawCopy', '_build', [
+    Case('from-data', 'return', _rcb_from_data, ensures=_rcb_data_ok, rkind=rk_dyn, modifies=['stream']),
+    Case('from-value', 'return', _rcb_from_value, ensures=_rcb_value_ok, rkind=rk_dyn, modifies=['stream']),
+    Case('none-with-buildnone-inner', 'return', lambda pre: t.not_(_rcb_isdict(pre)), rkind=rk_dyn, modifies=['stream']),
+    Case('fails', 'raise', lambda pre: t.not_(t.or_(_rcb_from_data(pre), _rcb_from_value(pre))), modifies=['stream']),
+], tags=('C14', 'C08', 'C09'), sequential_build=False)
